@@ -1,5 +1,6 @@
 import Driver.Common
 import OidcModel.Spec.C19
+import OidcModel.Spec.C19Options
 open Kv Drv
 
 /-
@@ -78,6 +79,25 @@ def parseStrategy (l : Line) (kindKey argKey : String) : IssuerStrategy :=
 def parseVisit (l : Line) : Visit :=
   { strategy := parseStrategy l "is.kind" "is.arg", host := str l "host", fwdHost := opt l "fwd" }
 
+/-! #### kind=options -/
+
+def optField : String → Option Field
+  | "auth" => some .authorization | "token" => some .token | "introspection" => some .introspection | "userinfo" => some .userinfo
+  | "revocation" => some .revocation | "endsession" => some .endSession | "keys" => some .jwks | "device" => some .deviceAuthorization
+  | _ => none
+
+/-- the option list as the property reads it -/
+def parseOptionSpecs (l : Line) : List OptionSpec :=
+  (List.range (nat l "on")).map fun i =>
+    let p := s!"o{i}."
+    let e := fun (j : Nat) => parseEndpoint l s!"{p}e{j}"
+    match str l (p ++ "k") with
+    | "insecure" => .allowInsecure
+    | "eps" => .endpoints (e 0) (e 1) (e 2) (e 3) (e 4) (e 5)
+    | k => match optField k with | some f => .endpoint f (e 0) | none => .other
+
+def optionsLegacy (l : Line) : Option Endpoints := if str l "router" == "legacy" then some (parseEndpoints l "le.") else none
+
 def tokenKinds : List String := ["id", "at", "cc"]
 
 def parseVisitObs (l : Line) : VisitObs :=
@@ -96,6 +116,8 @@ def classOf (l : Line) : String :=
     let c := parseConfig l
     let shapes := String.join (Field.all.map fun f => shape (f.configured c.endpoints))
     s!"config:{str l "router"}:{str l "is.kind"}:{shapes}"
+  | "options" =>
+    s!"options:{str l "router"}:{str l "ctor"}:n{nat l "on"}:{if bool l "acc" then "accepted" else "refused:" ++ str l "o.err"}"
   | "visit" =>
     s!"visit:{str l "router"}:{str l "is.kind"}{if has l "is.hdrs" then "+custom" else ""}:hosts-per-provider-{nat l "nhosts"}:discovery-order-{str l "oclass"}:tokens-{str l "tokvia"}"
   | "issuer" => s!"issuer:{if bool l "acc" then "accepted" else "rejected:" ++ str l "o.err"}"
@@ -106,6 +128,7 @@ def classOf (l : Line) : String :=
 def observedOf (l : Line) : String :=
   match str l "kind" with
   | "config" => if str l "obs" == "panic" then "panic" else docSummary (parseDoc l)
+  | "options" => if str l "obs" == "panic" then "panic" else if bool l "acc" then docSummary (parseDoc l) else "err:" ++ str l "o.err"
   | "visit" => if str l "obs" == "panic" then "panic" else s!"iss={esc (parseDoc l).Issuer};{docSummary (parseDoc l)}"
   | _ => if str l "obs" == "panic" then "panic" else if bool l "acc" then "ok" else "err:" ++ str l "o.err"
 
@@ -114,6 +137,7 @@ def monitorLine (l : Line) : Option String :=
   match str l "kind" with
   | "config" => monitor (parseConfig l) (parseObs l)
   | "visit" => monitorVisit (parseConfig l) (parseVisit l) (parseVisitObs l)
+  | "options" => monitorOptions (parseOracleP l "is.arg" "ip.") (str l "is.arg") {} {} (optionsLegacy l) (parseOptionSpecs l) (bool l "acc") (parseObs l)
   | "issuer" => monitorIssuer (parseOracle l "s") (str l "s") (bool l "insecure") (bool l "acc")
   | "dynissuer" => monitorDynamicIssuer (parseOracle l "path") (str l "path") (bool l "insecure") (bool l "acc") (opt l "o.iss")
   | "discover" => monitorDiscover (str l "asked") (str l "served") (if bool l "acc" then some (str l "o.iss") else none)
